@@ -99,6 +99,17 @@ fn grid() -> Vec<Case> {
             g.push(Case { cfg, seed_index: None, seed_mixed: false });
         }
     }
+    // a basename with a dot and no suffix: the infix is not the end of the "stem"
+    for naming in [NamingK::Numbers, NamingK::NumbersDirect, NamingK::Timestamps] {
+        let mut cfg = Cfg::rot(CritK::Size(LIMIT), naming, CleanK::Never);
+        cfg.parts = NameParts {
+            basename: Some("my.app".into()),
+            discriminant: None,
+            suffix: None,
+            use_timestamp: false,
+        };
+        g.push(Case { cfg, seed_index: None, seed_mixed: false });
+    }
     g.push(Case {
         cfg: Cfg::norot(),
         seed_index: None,
